@@ -266,10 +266,17 @@ def trial(t):
     res = {"out": [], "exc": None, "reuse": None, "first_pass_ops": None, "abandon_at": None}
     fail, take = t.get("fail"), t.get("take")
 
+    class Cancelled(BaseException):
+        """a failure that is not derived from Exception (like SystemExit, KeyboardInterrupt, asyncio.CancelledError)"""
+
     def f(x):
         if x == fail:
+            if t.get("fail_kind") == "base":
+                raise Cancelled("boom")
             raise RuntimeError("boom")
         return Res(x)
+
+    kept = []       # an abandoned generator the consumer still holds a reference to (closed only during the next use of the pool)
 
     def consumer():
         try:
@@ -284,7 +291,10 @@ def trial(t):
                                 break
                         res.setdefault("before_out", []).append(got)
                         _qcount[0] = 0
-                    for y in pool.imap_unordered(f, range(n)):
+                    gen = pool.imap_unordered(f, range(n))
+                    if t.get("keep"):
+                        kept.append(gen)
+                    for y in gen:
                         res["out"].append(y.a)
                         if take is not None and len(res["out"]) >= take:
                             res["abandon_at"] = len(SCHED.trace)
@@ -298,7 +308,12 @@ def trial(t):
             if t.get("reuse"):
                 _qcount[0] = 0
                 with pool:
-                    res["reuse"] = sorted(y.a for y in pool.imap_unordered(lambda x: Res(x), range(3)))
+                    got2 = []
+                    for y in pool.imap_unordered(lambda x: Res(x), range(t.get("reuse_n", 3))):
+                        got2.append(y.a)
+                        if kept and len(got2) == 1:
+                            kept.pop().close()        # the old, abandoned generator is finalised while the pool serves a new iteration
+                    res["reuse"] = sorted(got2)
         except Deadlock:
             res["exc"] = "Deadlock"
         except BaseException as e:  # noqa: BLE001
